@@ -243,7 +243,13 @@ class SemExec:
     def ev_array(self, e, env, st, depth):
         if not e["xs"]:
             return [(("empty",), env, st)]
-        raise Unrec("array literal")
+        out = []
+        for vals, s in self.seq_args(e["xs"], env, st, depth):
+            if all(v[0] == "rtconst" for v in vals):
+                out.append((("rtarray", tuple(v[1] for v in vals)), env, s))
+            else:
+                raise Unrec("array literal")
+        return out
 
     def ev_field(self, e, env, st, depth):
         out = []
@@ -275,7 +281,25 @@ class SemExec:
                     for lv, _, s2 in self.ev(fs["len"], env, s, depth):
                         out.append((("hdrval", lv, "record.hdr" if bv == ("hdr",) else "other"), env, s2))
                 return out
+            if set(fs) == {"record_type", "version", "len"} and base is None:
+                out = []
+                for vals, s in self.seq_args([fs["record_type"], fs["version"], fs["len"]], env, st, depth):
+                    rt_ok = vals[0] == ("rtv", "RT") or (vals[0] == ("rtv", "CUR") and s.decided.get("type_mismatch") is False)
+                    same = rt_ok and vals[1] == ("hdrfield", "version")
+                    out.append((("hdrval", vals[2], "record.hdr" if same else "other"), env, s))
+                return out
             raise Unrec("record header built field by field")
+        if rp == "tls_record::TlsRawRecord":
+            fs = {f["name"]: f["e"] for f in e["fields"]}
+            if e.get("base") is None and set(fs) == {"hdr", "data"}:
+                out = []
+                for vals, s in self.seq_args([fs["hdr"], fs["data"]], env, st, depth):
+                    if vals == [("hdr",), ("data",)]:
+                        out.append((("record",), env, s))   # the record, taken apart and put together again
+                    else:
+                        raise Unrec("a record other than the caller's is built")
+                return out
+            raise Unrec("raw record literal")
         if rp == RP:
             fs = {f["name"]: f["e"] for f in e["fields"]}
             if e.get("base") is not None or set(fs) != {"record_defrag_buffer", "current_record_type"}:
@@ -338,6 +362,14 @@ class SemExec:
             op = {"<": ">", "<=": ">=", ">": "<", ">=": "<="}[op]
         if a[0] == "len" and b[0] == "int":
             return self.size_atom(op, a, b[1])
+        if a[0] == "satdiff" and b[0] == "len":
+            a, b = b, a
+            op = {"<": ">", "<=": ">=", ">": "<", ">=": "<="}[op]
+        if a[0] == "len" and b[0] == "satdiff":
+            # x >= K.saturating_sub(y)  is  x + y >= K  (and x < .. is x + y < K); the strict/non-strict duals are not
+            if op not in (">=", "<"):
+                raise Unrec("comparison %s against a saturating difference" % op)
+            return self.size_atom(op, ("len", tuple(a[1]) + tuple(b[2]), "sat"), b[1])
         if a[0] == "int" and b[0] == "int":
             return ("bool", {"<": a[1] < b[1], "<=": a[1] <= b[1], ">": a[1] > b[1], ">=": a[1] >= b[1]}[op])
         raise Unrec("comparison %s of %s and %s" % (op, a[0], b[0]))
@@ -880,6 +912,34 @@ class SemExec:
                             out.append((("len", parts, "sat" if name == "saturating_add" else "wrap"), env, s2))
                     else:
                         raise Unrec("arithmetic %s on a length" % name)
+                continue
+            if rv[0] == "int" and name == "saturating_sub":
+                for vals, s2 in self.seq_args(e["args"], env, s, depth):
+                    if vals[0][0] != "len":
+                        raise Unrec("saturating_sub of " + vals[0][0])
+                    out.append((("satdiff", rv[1], tuple(vals[0][1])), env, s2))
+                continue
+            if rv[0] == "rtarray" and name == "contains":
+                for vals, s2 in self.seq_args(e["args"], env, s, depth):
+                    if vals[0] != ("rtv", "RT"):
+                        raise Unrec("contains of " + vals[0][0])
+                    out.append((("rtset", tuple(sorted(rv[1])), True), env, s2))
+                continue
+            if rv[0] == "optlen" and name in ("map_or", "is_some_and", "map_or_else"):
+                # checked sum tested through a closure: overflow (None) must give the answer "too large" gives
+                for vals, s2 in self.seq_args(e["args"], env, s, depth):
+                    fv = vals[-1]
+                    dflt = vals[0] if name == "map_or" else ("bool", False)
+                    if name == "map_or_else":
+                        raise Unrec("map_or_else on a checked sum")
+                    for r_, s3 in self.apply(fv, [("len", rv[1], "chk")], s2, depth):
+                        if not (r_[0] == "atom" and r_[1].startswith("too_large") and dflt == ("bool", r_[2])):
+                            raise Unrec("overflow of the checked sum is not treated as too large")
+                        out.append((r_, env, s3))
+                continue
+            if rv[0] in ("presult", "result_ok", "result_err") and name in ("is_ok", "is_err"):
+                good = (rv[0] == "presult" and rv[2] == ("Ok",)) or rv[0] == "result_ok"
+                out.append((("bool", good == (name == "is_ok")), env, s))
                 continue
             if rv[0] == "typestate":
                 if name in ("is_some", "is_none"):
